@@ -547,14 +547,31 @@ func (r *rwRT) ruleIterPred() {
 			}
 		}
 	}
-	run = func(arg AV) (outs []Outcome) {
+	runFrom := func(st *State, arg AV) (outs []Outcome) {
 		in := newIn(fn)
 		if built != nil {
-			outs = in.Run(built.clone(), fn, []AV{builtR, arg}, nil)
+			outs = in.Run(st, fn, []AV{builtR, arg}, nil)
 		} else {
-			outs = in.Run(newState(), fn, []AV{Sym{Name: "r", NN: true}, arg}, nil)
+			outs = in.Run(st, fn, []AV{Sym{Name: "r", NN: true}, arg}, nil)
 		}
 		r.account(in)
+		return outs
+	}
+	run = func(arg AV) (outs []Outcome) {
+		if built != nil {
+			return runFrom(built.clone(), arg)
+		}
+		return runFrom(newState(), arg)
+	}
+	// the same rewriter answers many questions: whatever an earlier answer leaves behind in it (a memo) must not
+	// decide a later one
+	runAfter := func(first, second AV) (outs []Outcome) {
+		for _, o := range run(first) {
+			if o.Panicked {
+				continue
+			}
+			outs = append(outs, runFrom(o.St, second)...)
+		}
 		return outs
 	}
 	verdict := func(outs []Outcome) (allTrue, allFalse bool, why string) {
@@ -584,4 +601,12 @@ func (r *rwRT) ruleIterPred() {
 	instTrue, _, why2 := verdict(run(mk("inst", true)))
 	c.check(instTrue, "RW.ITERPRED", "an instance of the API's iterator type", pos,
 		"an instance of co.Iter is recognised on every path", "an instance of co.Iter is not recognised: "+why2)
+	_, otherFalse2, why3 := verdict(runAfter(mk("inst", true), mk("other", true)))
+	c.check(otherFalse2, "RW.ITERPRED", "a different type with the same name, asked after an instance", pos,
+		"the answer for the like-named type does not depend on an earlier answer of the same rewriter",
+		"once an instance of co.Iter has been recognised, a named type that only spells like it is taken for the iterator type too (an answer remembered under a spelling): "+why3)
+	instTrue2, _, why4 := verdict(runAfter(mk("other", true), mk("inst", true)))
+	c.check(instTrue2, "RW.ITERPRED", "an instance of the API's iterator type, asked after a like-named type", pos,
+		"an instance of co.Iter is recognised whatever was asked before",
+		"once a like-named type has been rejected, an instance of co.Iter is rejected too (an answer remembered under a spelling): its loops stay unlowered while their operand's type is rewritten: "+why4)
 }
